@@ -16,6 +16,12 @@ def mc_deltamax(ctx, maxn):
         raise tlc.MachineryError("MC_DeltaMax failed: %s" % (res.errors[:2] or res.stdout[-800:]))
     for v in res.violated:
         ctx.violation("model:" + v, {"module": "MC_DeltaMax", "MaxN": maxn})
+    # vacuity guard: the domain that was meant is the domain that was explored
+    want = {(p, n, z) for p in range(maxn + 1) for n in range(maxn + 1 - p) for z in range(maxn + 1 - p - n) if p + n + z >= 1}
+    want |= {(p, n, z) for z in range(15, 20) for p in range(9) for n in range(9) if (p <= 2 and n <= 8) or (n <= 2 and p <= 8)}
+    got = {(r["p"], r["n"], r["z"]) for r in res.recs}
+    if got != want:
+        raise tlc.MachineryError("MC_DeltaMax explored %d compositions, %d were meant (missing e.g. %s)" % (len(got), len(want), sorted(want - got)[:3]))
     return res
 
 
